@@ -238,7 +238,7 @@ Definition parse_line (tbl : kwtable) (s : string) : lineres :=
   let l0 := map (fun c => if is_ch 9 c || is_ch 13 c then ch 32 else c) (list_of_string s) in
   let l1 := trim_list l0 in
   let '(n, l2) := take_lineno l1 0%Z in
-  let '(ts, lp, q) := scan tbl (S (length l2)) l2 [] 0%Z false in
+  let '(ts, lp, q) := scan tbl (S (List.length l2)) l2 [] 0%Z false in
   if q then LineErr "missing quote in BASIC line"
   else if (0 <? lp)%Z then LineErr "missing ) or ] in BASIC line"
   else if (lp <? 0)%Z then LineErr "missing ( or [ in BASIC line"
@@ -248,7 +248,7 @@ Definition parse_line (tbl : kwtable) (s : string) : lineres :=
    fatal there as well *)
 Definition parse_string (tbl : kwtable) (s : string) : lineres :=
   let l := list_of_string s in
-  let '(ts, lp, q) := scan tbl (S (length l)) l [] 0%Z false in
+  let '(ts, lp, q) := scan tbl (S (List.length l)) l [] 0%Z false in
   if q then LineErr "missing quote in BASIC line"
   else if (0 <? lp)%Z then LineErr "missing ) or ] in BASIC line"
   else if (lp <? 0)%Z then LineErr "missing ( or [ in BASIC line"
